@@ -50,3 +50,27 @@ Print Assumptions C03_explain_message_count.
 Theorem C03_explanation_blind_below_a_millisecond : explain_manifest ms_m1 = explain_manifest ms_m2 /\ hash_build ms_m1 <> hash_build ms_m2.
 Proof. exact explanation_blind_below_a_millisecond. Qed.
 Print Assumptions C03_explanation_blind_below_a_millisecond.
+
+(* the premises above are met: one step `cc a.c -> o` with a reported header a.h (defined in
+   Proofs/ExplainProofs.v), clean; the header gone; no record; the header touched *)
+Theorem C03_explain_example_clean : explain_reason ex_g (ex_w ex_tree [(0%nat, hash_build ex_manifest)]) 0 ex_bd = None /\ snd (check_build_dirty ex_g (ex_w ex_tree [(0%nat, hash_build ex_manifest)]) 0 ex_bd) = DClean.
+Proof. exact ex_clean. Qed.
+Print Assumptions C03_explain_example_clean.
+
+Theorem C03_explain_example_header_gone : explain_verdict ex_g (ex_w [(bs "a.c", ex_t 1); (bs "o", ex_t 3)] [(0%nat, hash_build ex_manifest)]) 0 ex_bd (bs "build.ninja:3") = [bs "explain: build.ninja:3: input a.h missing"].
+Proof. exact ex_header_gone. Qed.
+Print Assumptions C03_explain_example_header_gone.
+
+Theorem C03_explain_example_no_record : explain_verdict ex_g (ex_w ex_tree []) 0 ex_bd (bs "build.ninja:3") = [bs "explain: build.ninja:3: no previous state known"].
+Proof. exact ex_no_record. Qed.
+Print Assumptions C03_explain_example_no_record.
+
+Theorem C03_explain_example_touched : explain_verdict ex_g (ex_w [(bs "a.c", ex_t 1); (bs "a.h", ex_t 9); (bs "o", ex_t 3)] [(0%nat, hash_build ex_manifest)]) 0 ex_bd (bs "build.ninja:3") = [bs "explain: build.ninja:3: manifest changed"; bs "in:" ++ [10%N] ++ bs "  1500000001000 a.c" ++ [10%N] ++ bs "discovered:" ++ [10%N] ++ bs "  1500000009000 a.h" ++ [10%N] ++ bs "cmdline: cc a.c" ++ [10%N] ++ bs "out:" ++ [10%N] ++ bs "  1500000003000 o" ++ [10%N]].
+Proof. exact ex_touched. Qed.
+Print Assumptions C03_explain_example_touched.
+
+(* along an invocation: on every trace the World replay accepts (which is what the check establishes
+   for every observed invocation) the messages computed are one entry per verdict, in order *)
+Theorem C03_explain_trace_covers : forall g locs evs w pend i w', replay g w pend evs i = WOk w' -> map fst (explain_trace g locs w pend evs) = verdict_steps evs.
+Proof. exact explain_trace_covers. Qed.
+Print Assumptions C03_explain_trace_covers.
